@@ -235,12 +235,15 @@ def generate(prop, rng, tier):
             mk = rng.choice(sorted(meshes))
             ops.append({"op": "add_geometry", "geom": name, "mesh": mk,
                         "sabotage": rng.choice(["drop_y", "extra_node"])})
+        elif r < 0.88 and geoms:
+            g = rng.choice(sorted(geoms)) if rng.random() < 0.85 else "nope"
+            ops.append({"op": "set_attr", "geom": g, "value": rng.choice(["PART", "my geometry", "x"])})
         else:
             ops.append({"op": "read"})
     ops.append({"op": "read"})
     tr = {"world": NAME, "meshes": meshes, "ops": ops, "faults": None}
     mode = rng.random()
-    cand = [i for i, o in enumerate(ops) if o["op"] != "read"]
+    cand = [i for i, o in enumerate(ops) if o["op"] not in ("read", "set_attr")]
     if mode < 0.7 and cand:
         k = rng.choice(cand)
         if tier == "thorough":
@@ -432,6 +435,16 @@ def verify(path, model, out, log, step, absent=None, deep=True):
                     out.violate("V2-failed-leaves-nothing", "variable-counter",
                                 {"step": step, "state": state, "geometry": g, "MYSIZE": int(grp.attrs["MYSIZE"]), "variables": want})
                     return False
+        for (s_, g_) in sorted({(k[0], k[1]) for k in model.vars}):
+            try:
+                listed = sorted(imp.variables(g_, s_))
+            except Exception as e:   # noqa
+                out.violate("V1-acknowledged-durable", "variable-list", {"step": step, "state": s_, "geometry": g_, "type": type(e).__name__, "msg": str(e)[:200]})
+                return False
+            want_l = sorted(k[2] for k in model.vars if k[0] == s_ and k[1] == g_)
+            if listed != want_l:
+                out.violate("V1-acknowledged-durable", "variable-list", {"step": step, "state": s_, "geometry": g_, "file": listed, "model": want_l})
+                return False
         for (s, g, v) in sorted(model.vars):
             if s not in vg or g not in vg[s] or v not in vg[s][g]:
                 out.violate("V1-acknowledged-durable", "variable-list", {"step": step, "missing": [s, g, v]})
@@ -623,6 +636,25 @@ def _run(trace, out, log, d, seam):
             if not verify(path, model, out, log, k):
                 return
             out.count("op:read")
+            continue
+        if op["op"] == "set_attr":
+            # renaming a geometry group attribute must not disturb anything stored
+            try:
+                exp.set_group_attribute("/VMAP/GEOMETRY/%s" % op["geom"], "MYNAME", str(op["value"]).encode("utf8"))
+                err = None
+            except Exception as e:   # noqa
+                err = e
+            log.add("op", k, "set_attr", type(err).__name__ if err is not None else "ok")
+            out.count("op:set_attr" + (":raises" if err is not None else ""))
+            if (err is None) != (op["geom"] in model.geoms):
+                if err is not None:
+                    out.violate("V1-acknowledged-durable", "valid-call-raises:set_group_attribute",
+                                {"step": k, "type": type(err).__name__, "msg": str(err)[:200]})
+                    return
+                out.count("probe:invalid_call_accepted")
+                return
+            if not verify(path, model, out, log, k):
+                return
             continue
         expect = model_ok(model, op, meshes)
         if expect is None:
